@@ -38,6 +38,12 @@ static void run_rand(uint64_t idx, pv_rng* rng) {
     else if (idx == 152) { }
     else if (idx == 153) memset(script, 0xff, 19);
     else pv_randbytes(rng, script, 19);
+    /* a random source may repeat itself (a deterministic test generator, a stuck device): every create must still take exactly
+     * its own 19 bytes, once.  A quarter of the cases create two or three seeds in a row from identical random output. */
+    int reps = (idx % 4 == 1) ? 2 + (int)pv_randn(rng, 2) : 1;
+    polyseed_data* keep[3] = { NULL, NULL, NULL };
+    for (int rep = 0; rep < reps; ++rep) {
+    if (rep) { PV_COUNT("rand.creates_with_repeated_random_output", 1); if (pv_randn(rng, 2)) script[18] ^= (uint8_t)(0x40 << pv_randn(rng, 2)); }     /* same 150 bits, possibly other discarded bits */
     pv_set_rand_script(script, 19);
     uint64_t t = PV_EPOCH + pv_rand64(rng) % (1024 * PV_STEP);
     pv_w->time_value = t;
@@ -46,7 +52,7 @@ static void run_rand(uint64_t idx, pv_rng* rng) {
     polyseed_data* s = NULL; int st = pv_api_create(feat, &s);
     pv_set_rand_prng();
     PV_COUNT("evaluations", 1);
-    if (st != POLYSEED_OK) { pv_violation("C18/create-failed", "%s", pv_status_name(st)); return; }
+    if (st != POLYSEED_OK) { pv_violation("C18/create-failed", "%s", pv_status_name(st)); for (int i = 0; i < 3; ++i) if (keep[i]) pv_api_free(keep[i]); return; }
     bool ok = true;
     if (pv_w->rand_total != 19) { ok = false; pv_violation("C18/random-bytes-requested", "create requested %zu random bytes in %d call(s), expected 19", pv_w->rand_total, pv_ev_count(PV_EV_RAND)); }
     if (pv_ev_count(PV_EV_TIME) != 1) { ok = false; pv_violation("C18/clock-reads", "create read the injected clock %d times", pv_ev_count(PV_EV_TIME)); }
@@ -64,7 +70,9 @@ static void run_rand(uint64_t idx, pv_rng* rng) {
     if (B != pv_m_birthday_time(pv_m_birthday_of(t))) { ok = false; pv_violation("C18/birthday-not-from-injected-clock", "clock %llu, birthday %llu", (unsigned long long)t, (unsigned long long)B); }
     if (ok) { PV_DISTINCT("nontrivial", pv_mix(pv_hash(script, 19, 18), t)); PV_COUNT("rand.creates_ok", 1); if (idx < 152) PV_COUNT("rand.single_bit_patterns_ok", 1); }
     if (idx == 7 || idx == 200) pv_sample("rand", "random source delivers %s, clock %llu -> secret %s", pv_hex(script, 19), (unsigned long long)t, pv_hex(g_img + 10, 19));
-    pv_api_free(s);
+    if (rep + 1 < reps && pv_randn(rng, 2)) keep[rep] = s; else pv_api_free(s);       /* the earlier seed stays alive or not */
+    }
+    for (int i = 0; i < 3; ++i) if (keep[i]) pv_api_free(keep[i]);
 }
 
 /* ---------------------------------------------------------------- (b) injection histories */
